@@ -13,7 +13,7 @@ use std::collections::BTreeSet;
 use std::time::Duration;
 
 fn ty_str(t: &syn::Type) -> String {
-    squash(&quote::quote!(#t).to_string())
+    crate::settings::canon_type(t)
 }
 
 /// WF5 for D-generic: a parameter used under `compact` can only be instantiated with compactable types
@@ -178,10 +178,10 @@ pub fn check_state(s: &GenState, spec: &SettingsSpec, ctx: &mut Ctx) {
                 ctx.violation("C05/field-name", format!("{where_}: field {:?} vs source {:?}", g.name, wn), replay(), size);
             }
             let gt = ty_str(&g.ty);
-            if gt != squash(wt) {
+            if gt != crate::settings::canon_type_str(wt) {
                 ctx.violation(
                     "C05/field-type",
-                    format!("{where_}.{}: emitted `{gt}`, source field type corresponds to `{}`", wn.clone().unwrap_or_default(), squash(wt)),
+                    format!("{where_}.{}: emitted `{gt}`, source field type corresponds to `{}`", wn.clone().unwrap_or_default(), crate::settings::canon_type_str(wt)),
                     replay(),
                     size,
                 );
@@ -210,11 +210,12 @@ pub fn check_state(s: &GenState, spec: &SettingsSpec, ctx: &mut Ctx) {
         (ItemKind::Enum(got), Body::Enum(src)) => {
             let mut got: Vec<&VariantAst> = got.iter().collect();
             if let Some(last) = got.last() {
-                if last.name == "__Ignore" {
-                    if let Some(f) = last.fields.list().first() {
-                        marker = marker_of(&f.ty);
+                // the marker variant: a trailing variant whose only field is a PhantomData (whatever its name)
+                if got.len() > src.len() && last.fields.list().len() == 1 {
+                    if let Some(m) = last.fields.list().first().and_then(|f| marker_of(&f.ty)) {
+                        marker = Some(m);
+                        got.pop();
                     }
-                    got.pop();
                 }
             }
             if got.len() != src.len() {
@@ -250,10 +251,10 @@ pub fn check_state(s: &GenState, spec: &SettingsSpec, ctx: &mut Ctx) {
             _ => unreachable!("host is a struct"),
         };
         ctx.exec(1);
-        let want = squash(&ex.nested(&Ty::Named(G_D, a.clone()), None));
+        let want = crate::settings::canon_type_str(&ex.nested(&Ty::Named(G_D, a.clone()), None));
         match resolve_path(&registry, &settings, id) {
             Ok(Ok(p)) => {
-                let got = squash(&p);
+                let got = crate::settings::canon_type_str(&p);
                 outcome.push(got.clone());
                 if got != want {
                     ctx.violation(
@@ -288,7 +289,7 @@ pub fn run(tier: &str, seed: u64) -> i32 {
     let settings = settings_small();
     let budget = Budget {
         max_depth: (d.max_fields + d.max_insts) as u32,
-        wall: Duration::from_secs(if thorough { 900 } else { 45 }),
+        wall: Duration::from_secs(if thorough { 900 } else { 150 }),
         max_states: 40_000_000,
     };
     let st = explore(&d, &budget, seed, |s, ctx| {
